@@ -3,7 +3,7 @@
 which of them report a violation (seeded/RESULTS.json). /repo is restored after each seed."""
 import json, os, subprocess, sys, glob, re
 V='/verif'
-extra={'C01-m2':['C12'],'C01-m4':['C12'],'C02-m2':['C06'],'C02-m4':['C06'],'C08-m4':['C03'],'C01-m5':['C12'],'C01-m6':['C12'],'C17-m2':['C11']}
+extra={'C01-m2':['C12'],'C01-m4':['C12'],'C02-m2':['C06'],'C02-m4':['C06'],'C08-m4':['C03'],'C01-m5':['C12'],'C01-m6':['C12'],'C17-m2':['C11'],'C02-m5':['C06']}
 only=sys.argv[1:]
 res={}
 rp=f'{V}/seeded/RESULTS.json'
